@@ -65,6 +65,9 @@ def wiping_type(ctx, ty, wiping_adts):
         inner = split_args(m.group(2))
         if inner and owns_heap_or_adt(ctx, inner[0]) and wiping_type(ctx, inner[0], wiping_adts) and not inner[0].startswith('&'):
             return True
+        if inner and inner[0].startswith('&') and not inner[0].startswith('&['):
+            # a vector of references: the block that is freed holds addresses, the values stay where they are (and are wiped there)
+            return True
         return False
     # wrappers whose heap content is entirely wiping
     m = re.match(r'^(std::option::Option|std::result::Result|std::ops::ControlFlow)<(.*)>$', t)
@@ -462,10 +465,17 @@ def no_realloc(ctx, taint, wiping_adts):
                                 z = z[1]
                             if z.tag == 'zip':
                                 # min of the two sides: either bound will do; take one that can be evaluated
-                                try:
-                                    cnt = ilen.icount(z[1])
-                                except ilen.NoLen:
-                                    cnt = ilen.icount(z[2])
+                                cands = []
+                                for side in (z[1], z[2]):
+                                    try:
+                                        cands.append(ilen.icount(side))
+                                    except ilen.NoLen:
+                                        pass
+                                if not cands:
+                                    raise ilen.NoLen('neither side of the zip has a length')
+                                # (the number of pairs is at most either side: prefer the side the capacity is written in)
+                                cap_atoms = {a for mono in capp for a in mono}
+                                cnt = next((c for c in cands if {a for mono in c for a in mono} <= cap_atoms), cands[0])
                             else:
                                 cnt = ilen.icount(itb)
                             items = ilen.pmul(items, cnt)
